@@ -460,12 +460,21 @@ func (b *Backend) Withdraw(ctx context.Context, req channel.AdjudicatorReq, subS
 }
 
 // Subscribe implements channel.Adjudicator / channel.RegisterSubscriber.
-func (b *Backend) Subscribe(_ context.Context, id channel.ID) (channel.AdjudicatorSubscription, error) {
+func (b *Backend) Subscribe(ctx context.Context, id channel.ID) (channel.AdjudicatorSubscription, error) {
 	l := b.L
 	l.mu.Lock()
 	defer l.mu.Unlock()
 	c := l.get(id)
 	s := &lSub{ev: make(chan channel.AdjudicatorEvent, 64), closed: make(chan struct{})}
+	if ctx.Done() != nil { // the subscription lives as long as the context it was made with
+		go func() {
+			select {
+			case <-ctx.Done():
+				_ = s.Close()
+			case <-s.closed:
+			}
+		}()
+	}
 	c.subs = append(c.subs, s)
 	if c.concluded && c.reg != nil {
 		s.ev <- channel.NewConcludedEvent(id, &channel.ElapsedTimeout{}, c.reg.Version)
